@@ -12,7 +12,7 @@ def check(rep):
     n = PR.rule_operator_table(ctx)
     rep.floor("operator enum members", n, 11)
     PR.rule_compiles(ctx, rid="C02.SHAPE-COMPILES", strict=False)
-    n = PR.rule_translation(ctx)
+    n = PR.rule_translation(ctx, focus="control")
     rep.floor("shapes translated and compared with the reference reading", n, 180 if rep.tier == "quick" else 1000)
     PR.rule_trailing_raise(ctx)
     rep.assume("Python's own semantics of if/elif/else, comparison and boolean operators on type-compatible values")
